@@ -292,7 +292,7 @@ pub fn run(tier: &str) -> i32 {
             alpha,
             oracle: C09 { continuation: cont },
         };
-        let e = explore(&m, &Limits::new(2, if quick { 55 } else { 6000 }));
+        let e = explore(&m, &Limits::new(2, if quick { 300 } else { 6000 }));
         rep.absorb(
             &format!("LEDGER+Upgrade net={} theta={} n={} D={:?} bodies={:?} budgets={:?} upgrade_args={:?} continuation<={}", net, theta, n, diffs, bodies, budgets, ups, cont),
             e,
@@ -315,7 +315,7 @@ pub fn run(tier: &str) -> i32 {
             liveness: true,
             upgrade_transparency: true,
         };
-        let e = explore(&m, &Limits::new(3, if quick { 55 } else { 6000 }));
+        let e = explore(&m, &Limits::new(3, if quick { 300 } else { 6000 }));
         rep.absorb(
             &format!("SCHED+Upgrade theta={} follow_ups={} deviations<={}", theta, p, dev),
             e,
